@@ -53,6 +53,38 @@ mod verif_replay {
             }
         }
     }
+
+    // comparing two packed strings from any byte offset: the verdict is the code-point order of the
+    // remaining texts, and a Continue result names the byte offset / the tail cell where each goes on
+    #[repr(align(8))]
+    struct Buf([u8; 64]);
+    #[test]
+    fn pstr_compare_agrees_with_char_lists() {
+        let alphabet = ['a', 'b', '\u{e9}', '\u{20ac}', '\u{1f600}', '\u{10348}', '\u{f0000}'];
+        let mut texts: Vec<String> = vec![String::new()];
+        for &c in &alphabet { texts.push(c.to_string()); }
+        for &c in &alphabet { for &d in &alphabet { texts.push([c, d].iter().collect()); } }
+        for &c in &['a', '\u{1f600}'] { for &d in &alphabet { for &e in &['b', '\u{10348}'] { texts.push([c, d, e].iter().collect()); } } }
+        let mut fails = 0;
+        for t1 in &texts { for t2 in &texts { for o1 in 0..8usize { for o2 in 0..8usize {
+            let mut b1 = Buf([0u8; 64]); let mut b2 = Buf([0u8; 64]);
+            b1.0[o1..o1 + t1.len()].copy_from_slice(t1.as_bytes());
+            b2.0[o2..o2 + t2.len()].copy_from_slice(t2.as_bytes());
+            let (s1, s2) = (&b1.0[o1..], &b2.0[o2..]);
+            let mut p = 0; while p < t1.len() && p < t2.len() && s1[p] == s2[p] { p += 1; }
+            let (e1, e2) = (p == t1.len(), p == t2.len());
+            let want = if e1 || e2 {
+                format!("Continue({}, {})",
+                    if e1 { format!("TailIndex({})", Heap::pstr_tail_idx(o1 + p) - o1 / 8) } else { format!("PStrOffset({})", p) },
+                    if e2 { format!("TailIndex({})", Heap::pstr_tail_idx(o2 + p) - o2 / 8) } else { format!("PStrOffset({})", p) })
+            } else if t1.as_str() < t2.as_str() { "Less".to_string() } else { "Greater".to_string() };
+            let got = match std::panic::catch_unwind(|| format!("{:?}", compare_pstr_slices(s1, s2))) { Ok(g) => g, Err(_) => "PANIC".to_string() };
+            if got != want && fails < 12 {
+                fails += 1;
+                println!("REPLAY-FAIL compare_pstr_slices: {:?} at byte offset {} of its cell against {:?} at offset {}: got {} expected {}", t1, o1, t2, o2, got, want);
+            }
+        }}}}
+    }
 }
 '''
 
@@ -180,6 +212,6 @@ def replay_all(repo, by_ob, scratch, log, fam):
         if fails is None:
             out[ob] = None
         else:
-            sel = [{"goal": f, "got": ["fail", f], "expected": ["ok", "byte_len <= byte_cap"], "op": key, "a": None, "b": None} for f in fails if key in f or True]
+            sel = [{"goal": f, "got": ["fail", f], "expected": ["ok", "the behaviour named in goal"], "op": key, "a": None, "b": None} for f in fails if key in f or True]
             out[ob] = sel
     return out
